@@ -346,4 +346,4 @@ impl<H: Host> Emulator<H> {
 
 #[cfg(kani)]
 #[path = "/verif/hooks/core/emulator.rs"]
-mod verif_hooks;
+pub(crate) mod verif_hooks;
